@@ -166,6 +166,35 @@ def regex_items(repo, tier):
     return items
 
 
+def expand_name_items(repo, tier):
+    """get_all_references re-resolves each hit at column start+1; expand_name must return the identifier there
+    (lemma, exhaustive small scope with the real function)."""
+    from fortls.helper_functions import expand_name
+    fi = repo.func("fortls.helper_functions.expand_name")
+    alphabet = ["n", "1", "+", "-", " ", "=", "(", "e", "_", "."]
+    bound = 5 if tier == "thorough" else 4
+    bad = None
+    cnt = 0
+    for ln in range(1, bound + 1):
+        for tup in itertools.product(alphabet, repeat=ln):
+            line = "".join(tup)
+            for s_ in whole_word_occurrences(line, "n"):
+                cnt += 1
+                got = expand_name(line, s_ + 1)
+                if got.lower() != "n":
+                    bad = {"line": line, "probe_column": s_ + 1, "expand_name": got, "expected": "n"}
+                    break
+            if bad:
+                break
+        if bad:
+            break
+    return [Item("C06/expand_name/lemma.identifier_at_hit", "refuted" if bad else "bounded-ok",
+                 "finite-enumeration(CPython)", 0.0, where=fi.where(), mode="bounded", func=fi.qualname,
+                 detail=f"bounded: {cnt} whole-word hits of a one-letter name in all lines over {len(alphabet)} characters "
+                        f"up to length {bound}: expand_name(line, start+1) is the name", witness=bad,
+                 confirmed=True if bad else None)]
+
+
 def structure_items(repo):
     """Shape of the loop in get_all_references and of the two emitters."""
     items = []
@@ -256,7 +285,7 @@ def native_references():
 
 
 def extra(repo, reg, tier, seed):
-    items = regex_items(repo, tier) + structure_items(repo)
+    items = regex_items(repo, tier) + structure_items(repo) + expand_name_items(repo, tier)
     w = native_references()
     items.append(Item("C06/session/native_references", "refuted" if w else "bounded-ok", "native-run(bounded)", 0.0,
                       mode="bounded", witness=w, confirmed=True if w else None, func=f"{LS}.get_all_references",
